@@ -846,13 +846,23 @@ func (index *fkIndex) CheckIntegrity(ctx MutateContext, fix bool, errorSink func
 			}
 		} else {
 			if !index.fkSymbol.GetStore().IsEntityPresent(tx, string(key)) {
-				tryFix := index.nullable && fix && len(index.symbol.GetPath()) == 1
+				// the value lives at path = prefix ++ [key] inside the entity bucket: clear it where it is stored
+				path := index.symbol.GetPath()
+				tryFix := index.nullable && fix && len(path) > 0
 				if tryFix {
 					entityBucket := index.symbol.GetStore().GetEntityBucket(tx, id)
 					if entityBucket.HasError() {
 						return entityBucket.GetError()
 					}
-					if err := entityBucket.Put([]byte(index.symbol.GetPath()[0]), nil); err != nil {
+					fieldBucket := entityBucket.GetPath(path[:len(path)-1]...)
+					if fieldBucket == nil {
+						return errors.Errorf("%v.%v: no bucket at %v for %v", index.symbol.GetStore().GetEntityType(),
+							index.symbol.GetName(), path[:len(path)-1], string(id))
+					}
+					if fieldBucket.HasError() {
+						return fieldBucket.GetError()
+					}
+					if err := fieldBucket.Put([]byte(path[len(path)-1]), nil); err != nil {
 						return err
 					}
 				}
@@ -988,13 +998,23 @@ func (index *fkConstraint) CheckIntegrity(ctx MutateContext, fix bool, errorSink
 			}
 		} else {
 			if !index.symbol.GetLinkedType().IsEntityPresent(tx, string(key)) {
-				tryFix := index.nullable && fix && len(index.symbol.GetPath()) == 1
+				// the value lives at path = prefix ++ [key] inside the entity bucket: clear it where it is stored
+				path := index.symbol.GetPath()
+				tryFix := index.nullable && fix && len(path) > 0
 				if tryFix {
 					entityBucket := index.symbol.GetStore().GetEntityBucket(tx, id)
 					if entityBucket.HasError() {
 						return entityBucket.GetError()
 					}
-					if err := entityBucket.Put([]byte(index.symbol.GetPath()[0]), nil); err != nil {
+					fieldBucket := entityBucket.GetPath(path[:len(path)-1]...)
+					if fieldBucket == nil {
+						return errors.Errorf("%v.%v: no bucket at %v for %v", index.symbol.GetStore().GetEntityType(),
+							index.symbol.GetName(), path[:len(path)-1], string(id))
+					}
+					if fieldBucket.HasError() {
+						return fieldBucket.GetError()
+					}
+					if err := fieldBucket.Put([]byte(path[len(path)-1]), nil); err != nil {
 						return err
 					}
 				}
